@@ -383,7 +383,13 @@ func (c *syntaxLoader) collectDirectives(p ast.ParserSection) {
 	}
 	// Sets pass 2. Resolve the rhs.
 	for _, s := range setsToResolve {
-		*c.out.Sets[s.index] = *c.convertSet(s.expr)
+		converted := c.convertSet(s.expr)
+		if slices.Contains(c.out.Sets, converted) {
+			// A bare alias of another named set, which may not be resolved yet (or is this very set):
+			// refer to it instead of copying its current content.
+			converted = &syntax.TokenSet{Kind: syntax.Union, Sub: []*syntax.TokenSet{converted}, Origin: converted.Origin}
+		}
+		*c.out.Sets[s.index] = *converted
 	}
 
 	for _, mapping := range c.mapping {
